@@ -119,3 +119,11 @@ CHECKS["C10"] = {
     "note": "Trusted: CPython dataclasses field collection and Field.metadata semantics; the decorator / class-factory shape is itself checked (T-MODE.decorator). Not decided: deep run-time equality of values across modes (follows from the above).",
 }
 NOT_APPLICABLE.pop("C10", None)
+CHECKS["C12"] = {
+    "engine": "E1 + dataclass-field model + E5 rules (T-SHAPE.*, T-KEYS-NODEL, T-JSON, T-JSONDUMP)",
+    "technique": "must-assign / key-effect analysis of the column actions and the output layer against the documented skeleton, per-mode dataclass field tables, non-JSON-value lint, structural check of the json_dump tail of run()",
+    "text": "For all supported DDL and all modes: the nine documented table keys are unconditional fields of every mode class with container defaults, primary_key is bound to a list on every path, the emitting loop outputs every attribute that passes the filter, every column dict that reaches `columns` has name / type / size (literal) and the six option keys (must-assigned on every path of the column production), nothing downstream deletes a required column key, unique / nullable are only stored as booleans, no set / bytes / object flows into a result, and json_dump returns json.dumps of exactly the returned object.",
+    "design_ref": "DESIGN.md section 4 C12",
+    "note": "Trusted: json, dataclasses. Declined: `primary_key lists names of that table's columns` (value-level). Reviewed exception: prepare_alter_columns may append a reference-only record for an ALTER naming an unknown column (ill-formed DDL).",
+}
+NOT_APPLICABLE.pop("C12", None)
